@@ -84,7 +84,7 @@ Lemma drop_last_render_d d t s :
   t <> [] -> length s = d -> 1 <= d -> drop_last_s d (render (t ++ s)) = render t.
 Proof.
   intros Ht Hs Hd. unfold drop_last_s.
-  rewrite split_render by (destruct t; discriminate).
+  rewrite split_render by (intros E; apply app_eq_nil in E; destruct E; contradiction).
   destruct d as [|d']; [lia|].
   rewrite map_app, app_length, !map_length, Hs.
   replace (length t + S d' - S d') with (length (map dec t) + 0) by (rewrite map_length; lia).
@@ -99,7 +99,7 @@ Definition flat_ok (d : nat) (t : tag) (ss : list (list N)) (es : list tok) : Pr
 Lemma flat_tagged d t ss es : t <> [] -> flat_ok d t ss es -> tagged (map (app t) ss) es.
 Proof.
   intros Ht (H1 & H2 & H3). split; [rewrite map_map; exact H1|]. split; [|exact H3].
-  apply Forall_forall. intros a Ha. apply in_map_iff in Ha. destruct Ha as (s & <- & _). destruct t; discriminate.
+  apply Forall_forall. intros a Ha. apply in_map_iff in Ha. destruct Ha as (s & <- & _). intros E; apply app_eq_nil in E; destruct E; contradiction.
 Qed.
 
 Lemma key_of_flat d t ss es a :
@@ -182,6 +182,117 @@ Proof.
   { apply forced_gather_all_done. intros k' Hk'.
     destruct (tmkeys_fold d arr dinit k' Hk') as [[]|(a & Ha & Ka)].
     rewrite (Hkey a Ha) in Ka. injection Ka as <-. exact Hdone. }
-  destruct (run_with_terms d l1 l2 p1 p2 Hnt Hne Hl2 Hf) as [G1 G2]. fold s in G1, G2.
-  rewrite G1, G2. fold dd. rewrite Hg. split; reflexivity.
+  destruct (run_with_terms d l1 l2 p1 p2 Hnt Hne Hl2 Hf) as [G1 G2].
+  change (fold_left (data_step d) (l1 ++ l2) dinit) with dd in G1, G2. fold s in G1, G2.
+  rewrite G1, G2, Hg. split; reflexivity.
+Qed.
+
+(* ------------------------------------------------------------------ the rectangular case: all index tuples, product size *)
+Fixpoint grid (dims : list nat) : list (list N) :=
+  match dims with
+  | [] => [[]]
+  | n :: r => flat_map (fun i => map (cons (N.of_nat i)) (grid r)) (seq 0 n)
+  end.
+Definition slt (s s' : list N) : Prop := (cmp_comps s s' < 0)%Z.
+
+Lemma sorted_app {A} (R : A -> A -> Prop) l1 l2 :
+  Sorted R l1 -> Sorted R l2 -> (forall x y, In x l1 -> In y l2 -> R x y) -> Sorted R (l1 ++ l2).
+Proof.
+  induction l1 as [|a l1 IH]; simpl; intros H1 H2 H; [exact H2|].
+  inversion H1 as [|? ? H1' Hhd]; subst. constructor.
+  - apply IH; auto.
+  - destruct l1 as [|b l1]; simpl.
+    + destruct l2 as [|y l2]; constructor. apply H; simpl; auto.
+    + constructor. inversion Hhd; subst. assumption.
+Qed.
+
+Lemma sorted_map_in {A B} (R : A -> A -> Prop) (R' : B -> B -> Prop) (f : A -> B) l :
+  (forall x y, In x l -> In y l -> R x y -> R' (f x) (f y)) -> Sorted R l -> Sorted R' (map f l).
+Proof.
+  induction l as [|a l IH]; simpl; intros H Hs; [constructor|].
+  inversion Hs as [|? ? Hs' Hhd]; subst. constructor.
+  - apply IH; [intros x y Hx Hy; apply H; simpl; auto|exact Hs'].
+  - destruct l as [|b l]; simpl; constructor. inversion Hhd; subst. apply H; simpl; auto.
+Qed.
+
+Lemma grid_length dims : Forall (fun s => length s = length dims) (grid dims).
+Proof.
+  induction dims as [|n r IH].
+  { constructor; [reflexivity|constructor]. }
+  cbn [grid length].
+  apply Forall_forall. intros s Hs. apply in_flat_map in Hs. destruct Hs as (i & _ & Hs).
+  apply in_map_iff in Hs. destruct Hs as (s' & <- & Hs'). simpl. f_equal.
+  rewrite Forall_forall in IH. apply IH. exact Hs'.
+Qed.
+
+Lemma flat_map_const_length {A B} (f : A -> list B) l m :
+  (forall x, length (f x) = m) -> length (flat_map f l) = length l * m.
+Proof. intros H. induction l as [|a l IH]; simpl; auto. rewrite app_length, H, IH. reflexivity. Qed.
+
+Lemma grid_count dims : length (grid dims) = fold_right Nat.mul 1 dims.
+Proof.
+  induction dims as [|n r IH]; simpl; [reflexivity|].
+  rewrite (flat_map_const_length _ _ (length (grid r))) by (intros; apply map_length).
+  rewrite seq_length, IH. reflexivity.
+Qed.
+
+Lemma grid_blocks r n : Sorted slt (grid r) -> forall k,
+  Sorted slt (flat_map (fun i => map (cons (N.of_nat i)) (grid r)) (seq k n)) /\
+  (forall s, In s (flat_map (fun i => map (cons (N.of_nat i)) (grid r)) (seq k n)) ->
+             exists i s', s = N.of_nat i :: s' /\ k <= i).
+Proof.
+  intros Hr. induction n as [|n IH]; intros k; simpl.
+  - split; [constructor|intros s []].
+  - destruct (IH (S k)) as [IH1 IH2]. split.
+    + apply sorted_app; auto.
+      * apply (sorted_map_in slt slt); auto. intros x y _ _ H. unfold slt in *. simpl.
+        replace (Z.of_N (N.of_nat k) - Z.of_N (N.of_nat k))%Z with 0%Z by lia. exact H.
+      * intros x y Hx Hy. apply in_map_iff in Hx. destruct Hx as (sx & <- & _).
+        destruct (IH2 y Hy) as (i & sy & -> & Hi). unfold slt. simpl.
+        destruct (Z.eqb_spec (Z.of_N (N.of_nat k) - Z.of_N (N.of_nat i)) 0); lia.
+    + intros s Hs. apply in_app_or in Hs. destruct Hs as [Hs|Hs].
+      * apply in_map_iff in Hs. destruct Hs as (s' & <- & _). exists k, s'. split; auto.
+      * destruct (IH2 s Hs) as (i & s' & -> & Hi). exists i, s'. split; auto. lia.
+Qed.
+
+Lemma grid_sorted dims : Sorted slt (grid dims).
+Proof.
+  induction dims as [|n r IH].
+  { constructor; constructor. }
+  cbn [grid]. apply (proj1 (grid_blocks r n IH 0)).
+Qed.
+
+Lemma cmp_comps_app_same t s s' : cmp_comps (t ++ s) (t ++ s') = cmp_comps s s'.
+Proof.
+  induction t as [|x t IH]; simpl; [reflexivity|].
+  replace (Z.of_N x - Z.of_N x)%Z with 0%Z by lia. simpl. exact IH.
+Qed.
+
+Lemma grid_tlt t dims : Sorted tlt (map (app t) (grid dims)).
+Proof.
+  apply (sorted_map_in slt tlt); [|apply grid_sorted].
+  intros x y Hx Hy H. pose proof (grid_length dims) as L. rewrite Forall_forall in L.
+  unfold tlt, compare_tags. rewrite !app_length, (L x Hx), (L y Hy).
+  replace (Z.of_nat (length t + length dims) - Z.of_nat (length t + length dims))%Z with 0%Z by lia. simpl.
+  rewrite cmp_comps_app_same. exact H.
+Qed.
+
+(* d-level rectangular scatter with sizes dims below tag t, one GatherStep of depth d = length dims, size token
+   carrying the product: the flat list in row-major (= compare_tags) order *)
+Lemma gather_depth_d_grid dims t es l1 l2 p1 p2 :
+  dims <> [] -> t <> [] ->
+  map tag_of es = map (fun s => render (t ++ s)) (grid dims) ->
+  Permutation (l1 ++ l2) (OnSize (render t) (N.of_nat (fold_right Nat.mul 1 dims)) :: map OnElem es) ->
+  p1 <> p2 -> (forall a, In a l2 -> port_of a <> p1) ->
+  let s := gather_run (length dims) (l1 ++ OnTerm p1 Completed :: l2 ++ [OnTerm p2 Completed]) in
+  gout (gd s) = [ListTok (render t) es] /\ gfinal s = Some Completed.
+Proof.
+  intros Hd Ht Htags Hp Hne Hl2.
+  apply (gather_depth_d (length dims) t (grid dims) es l1 l2 p1 p2); auto.
+  - destruct dims; [congruence|simpl; lia].
+  - split; [exact Htags|]. split; [apply grid_length|apply grid_tlt].
+  - unfold inst_arrivals.
+    assert (El : length es = fold_right Nat.mul 1 dims).
+    { rewrite <- grid_count, <- (map_length tag_of es), Htags, map_length. reflexivity. }
+    rewrite El. exact Hp.
 Qed.
